@@ -238,8 +238,10 @@ def St.evalAgg (st : St) (q : Query) : String :=
   let lone := q.calls.length == 1 && q.interval == 0 && (q.calls.all (fun c => isSelector c.f))
   -- excluded case (un-hinted, a key of the range in two containers): the statistics path sees
   -- rows the plain select does not show; the time of a lone min/max is left open
-  let openTime := lone && matchPreAgg q.shape && (q.calls.all (fun c => c.f == "min" || c.f == "max")) &&
-    st.keyTwiceIn q.lo q.hi
+  let twice := matchPreAgg q.shape && st.keyTwiceIn q.lo q.hi
+  let openTime := lone && twice && (q.calls.all (fun c => c.f == "min" || c.f == "max"))
+  -- … and so is the value of first/last when those rows hold several values at the extreme time
+  let staleOpen := twice
   let out := groups.filterMap (fun g =>
     let ss := series.filter (fun s => groupOf q.grp s == g)
     -- buckets that hold a row of the group
@@ -265,7 +267,19 @@ def St.evalAgg (st : St) (q : Query) : String :=
           if c.f == "first" || c.f == "last" then
             let bt : Int := pts.foldl (fun (m : Int) (p : Int × Int) => if c.f == "first" then min m p.1 else max m p.1) p0.1
             let vs := dedupSorted ((pts.filter (fun (p : Int × Int) => p.1 == bt)).map (fun (p : Int × Int) => p.2))
-            if vs.length > 1 && v.1.isSome then (some "~", v.2) else v
+            -- excluded case: the rows of all containers (also those the plain select hides)
+            let stale : Bool :=
+              if staleOpen then
+                let all : List (Int × Int) := ss.flatMap (fun s => (st.containers s).flatMap (fun (cont : List (List FRow)) =>
+                  (cont.flatten.filter (fun (r : FRow) => decide (q.lo ≤ r.t) && decide (r.t ≤ q.hi))).filterMap (fun (r : FRow) =>
+                    (r.cs.getD c.col none).map (fun x => (r.t, x)))))
+                match all with
+                | [] => false
+                | a0 :: _ =>
+                  let aT : Int := all.foldl (fun (m : Int) (p : Int × Int) => if c.f == "first" then min m p.1 else max m p.1) a0.1
+                  (dedupSorted ((all.filter (fun (p : Int × Int) => p.1 == aT)).map (fun (p : Int × Int) => p.2))).length > 1
+              else false
+            if (vs.length > 1 || stale) && v.1.isSome then (some "~", v.2) else v
           else if (c.f == "min" || c.f == "max") && lone then
             let best : Int := pts.foldl (fun (m : Int) (p : Int × Int) => if c.f == "min" then min m p.2 else max m p.2) p0.2
             let ts := dedupSorted ((pts.filter (fun (p : Int × Int) => p.2 == best)).map (fun (p : Int × Int) => p.1))
